@@ -54,32 +54,32 @@ CLAIMED.update({
             "abstract interpretation + canonical linear forms + provenance qualifiers of indices"),
     "C07": ("§4 C07", "decides for p-entailment, System Z, System W (rc2, z3), lex (rc2, z3): EXT.inf-hard, EXT.vacuity (guards compared over "
                       "satisfiability patterns), EXT.start-total (integer reasoning over len(P) ≥ 1), EXT.only-infinity, EXT.pinf, and the "
-                      "recursion obligations on the generic head (Z.*), MANAGER.init (the mode flag reaches the state). Assumes: semantic adequacy of the extended definitions",
+                      "recursion obligations on the generic head (Z.*), W.* / LEX.* of the recursions below the infinity layer, Z3MCS.*, CNF.*, MCS.*, MANAGER.init (the mode flag reaches the state). Assumes: semantic adequacy of the extended definitions",
             "abstract interpretation + guard equivalence over satisfiability patterns + small integer reasoning"),
     "C09": ("§4 C09", "decides three clauses only: D1 SHORTCUT.guard/dominance, D2 the per-operator decision SAT(A∧¬B)∧UNSAT(A∧B) ⇒ False "
                       "(Z.decision, W.subset-test rows with V=∅, LEX.cardinality, LEX.strict-shortcuts), D3 CNF.roles/literals/constants and Z.start / W.start / LEX.start (direct inference needs every layer reached). Not "
                       "decided: And, Or, cautious monotony, Cut, rational monotony, LLE, RW (relations between answers of different queries)",
             "composition of the operator rules (abstract interpretation, decision tables)"),
-    "C11": ("§4 C11", "decides: BACKEND.dispatch (evaluated on the concrete names rc2, rc2-g3, rc2-g4, rc2-cd, rc2-m22, rc2-mgh), MANAGER.init, DISPATCH, W.siblings / LEX.siblings / EXT.siblings (both implementations "
+    "C11": ("§4 C11", "decides: BACKEND.dispatch (evaluated on the concrete names rc2, rc2-g3, rc2-g4, rc2-cd, rc2-m22, rc2-mgh), MANAGER.init, OBJ.identity (conditionals compare by identity), DISPATCH, W.siblings / LEX.siblings / EXT.siblings (both implementations "
                       "discharge one obligation table on a common abstract form), Z3.translate, Z3MCS.*, MCS.*. Assumes: the solvers agree",
             "sibling cross-check on a common abstract form (abstract interpretation of both implementations)"),
-    "C12": ("§4 C12", "decides: KEY.no-reserved, KEY.no-positional, NONINTERF. Not decided: invariance under reordering, atom renaming and "
+    "C12": ("§4 C12", "decides: KEY.no-reserved, KEY.no-positional, NONINTERF, OBJ.identity, and what listing order can reach: *.balance, LEX.tie-constraints, W.decision, C.selffulfilling, C.relations, CNF.constants. Not decided: invariance under reordering, atom renaming and "
                       "equivalent rewriting (semantic)",
             "provenance qualifiers of keys and indices carried by the abstract values + non-interference audit of decisions and answers"),
-    "C13": ("§4 C13", "decides: STATE.lifetime, STATE.solver-per-query, STATE.init-preserves, ROWS.key, ROWS.columns, ROWS.order (rows in submission order), TIMEOUT.per-query, PAR.key, PAR.join, QUERYSLOT.def-before-use (also on "
+    "C13": ("§4 C13", "decides: STATE.lifetime, STATE.solver-per-query, STATE.init-preserves, ROWS.key, ROWS.columns, ROWS.order (rows in submission order), TIMEOUT.per-query, CNF.roles on a state with unknown earlier content (no presentation-keyed memo), PAR.key (workers, stores and the returned mapping read as values), PAR.join, QUERYSLOT.def-before-use (also on "
                       "the state an earlier query left behind), CACHE.readonly, PREPROC.once. Not decided: scheduling of processes, fork semantics",
             "attribute-lifetime audit over the class hierarchy + abstract interpretation of the wrappers (key provenance, process typestate)"),
     "C14": ("§4 C14", "decides: CHECK.three-way, TIMEOUT.flow, TIMEOUT.row (query rows, worker rows, rows after a preprocessing timeout), "
                       "TIMEOUT.guarded-raise (an observed expiry leaves the enumeration by TimeoutError only), STATE.solver-per-query, "
                       "TIMEOUT.per-query (a deadline per query), nothing but the operator's own error escapes a wrapper, the preprocessing flag of a row is "
-                      "the one after this call's preprocessing, ROWS.columns, PREPROC.once. Not decided: when an expiry "
+                      "the one after this call's preprocessing, converting handlers read only keys every state has, no rows without evaluation unless preprocessing expired, answers in front of the recursion after an observed expiry (W.start / LEX.start), ROWS.columns, PREPROC.once. Not decided: when an expiry "
                       "happens, z3 honouring its timeout",
             "typestate of check()/model() with a three-valued result + handler audit over the call paths + abstract interpretation of the wrappers"),
 })
 
 CLAIMED.update({
     "C16": ("§4 C16", "decides: ZRANK.recursion (both copies), WORLD.literals, ZRANK.cache, ZRANK.pure, FACT.shape (both builders), partition "
-                      "mode, ZRANK.refuse, DIAG.flags (the diagnostics carried by the refusal), FACTORY.forward, the caller's base left untouched, RANK.min and ACCEPT.decision (acceptance through formula ranks), PART.* on `consistency`. Not decided: equality with the operator's answers, solver",
+                      "mode, ZRANK.refuse, DIAG.flags (the diagnostics carried by the refusal) and the arguments of the diagnostics call, a rank only from the descent through the layers (partition mode symbolic), FACTORY.forward, the caller's base left untouched, RANK.min and ACCEPT.decision (acceptance through formula ranks), PART.* on `consistency`. Not decided: equality with the operator's answers, solver",
             "abstract interpretation (solver scopes, decision table, cache typestate) + sibling cross-check"),
     "C17": ("§4 C17", "decides four clauses: CREP.rank, KEY.no-positional between impacts / η names / conditionals, CHECK.three-way and the "
                       "objectives at the constructor, C.relations and C.empty-minimum of the solved system, RANK.min / ACCEPT.decision, and the shape of "
@@ -89,7 +89,7 @@ CLAIMED.update({
             "abstract interpretation + provenance qualifiers of indices"),
     "C18": ("§4 C18", "decides: RANK.min, ACCEPT.decision, MARG.bits, COND.filter, TPO.order (both directions, tpo2ranks by evaluation on a symbolic list of layers), WORLD.literals, FACTORY.forward. Assumes: solver, BitVector",
             "abstract interpretation (accumulator update tables, decision tables, key construction)"),
-    "C20": ("§4 C20", "decides three clauses: SAVE.restore (all exits incl. failing open/dump), STATE.pickled (__getstate__/__setstate__ keep every attribute with its full content), IMPACTS.keys (export followed by import of what it wrote; size check before replacement), IMPACTS.accept (no legitimate vector "
+    "C20": ("§4 C20", "decides three clauses: SAVE.restore (all exits incl. failing open/dump), STATE.pickled (__getstate__/__setstate__ keep every attribute with its full content), IMPACTS.keys (export followed by import of what it wrote; size check before replacement), IMPACTS.factory (both init_with_impacts*), IMPACTS.accept (no legitimate vector "
                       "rejected on reload), FORMAT.agree (tables over suffix "
                       "classes x fmt, loader fallbacks followed through exceptional paths). Not decided: pickling across interpreters, equality "
                       "of continued lazy computation",
